@@ -39,6 +39,7 @@ func c12CheckBatch(c h.C12BatchCase) h.Result {
 	r := h.NewR()
 	pool := make([]c12PoolObj, len(c.Pool))
 	anyBad := false
+	ctxs := c12Ctxs{}
 	for i, e := range c.Pool {
 		b := e.Build()
 		exp := b.Expect()
@@ -61,7 +62,7 @@ func c12CheckBatch(c h.C12BatchCase) h.Result {
 			}
 			r.Class("entry:undecodable->reset-object")
 		}
-		st := c12LibTranscript(b.M)
+		st := ctxs.transcript(b.M)
 		r.Eval(1)
 		single := pk.Verify(st, sig)
 		if single != exp {
